@@ -14,9 +14,8 @@ Inductive ctype :=
 | TUtf8                              (* UTF8Type: an UnsignedIntegerType of 8 bits *)
 | TNonPrim.                          (* void, arrays, composites: anything that is not a PrimitiveType *)
 
-(* outcome: accepted with the stored value / InvalidDefinitionError / an exception that is not a pydsdl error
-   (actual behaviour on the current tree for lone surrogates, see C12_crash_refuted) *)
-Inductive cres := COk (v : value) | CRej | CCrash.
+(* outcome: accepted with the stored value / InvalidDefinitionError *)
+Inductive cres := COk (v : value) | CRej.
 
 (* ---- construction of the type object (PrimitiveType.__init__ and subclasses) ---- *)
 Definition ctype_ok (t : ctype) : bool :=
@@ -83,7 +82,7 @@ Definition const_check (t : ctype) (v : value) : cres :=
         match v with
         | VRat q => if is_int q then range_check t q else CRej
         | VStr s =>
-            if negb (encodable s) then CCrash                   (* UnicodeEncodeError escapes *)
+            if negb (encodable s) then CRej                     (* UnicodeEncodeError caught: as_bytes = b"" *)
             else if negb (utf8_len s =? 1)%Z then CRej
             else if negb (is_uint8 t) then CRej
             else range_check t (inject_Z (hd 0%Z s))             (* ord(as_bytes) *)
